@@ -11,3 +11,6 @@ native.build('dev')
 mir, res, th, mh = load_mir()
 print('setup ok: tree', th, 'mir', mh, 'items', len(mir.functions))
 PY
+[ $? -eq 0 ] || exit 1
+# translator validation: the repository's own test inputs through the MIR executor must give the recorded expectations
+python3-vt -m mirsym.validate || exit 1
